@@ -137,6 +137,23 @@ pub fn gen_c06(run: &mut Run, seed: u64, thorough: bool) {
         }
     }
     // ---------------- gas service (owner; collector) ----------------
+    // ---------------- every ownable contract: a transfer to the all-zero ACCOUNT address (the library's ZERO_ADDRESS) really
+    //                  moves the role there — the previous holder is out ----------------
+    {
+        let zero = Addr { contract: false, id: [0u8; 32] };
+        for kind in crate::up::KINDS.iter() {
+            run.scenario("up", &format!("c06-up-{kind}-to-zero-address"));
+            run.op("time 1000 10", "time");
+            run.op(&format!("up.new {}", owner0.tok()), "construct");
+            run.op(&format!("up.transfer_ownership {kind} {} {}", zero.tok(), owner0.tok()), "transfer-to-zero-address");
+            run.op(&format!("up.owner {kind}"), "q");
+            run.op(&format!("up.transfer_ownership {kind} {} {}", bene.tok(), owner0.tok()), "transfer-by-former-holder-after-zero");
+            let hk = if kind == &"dummy" { "dummy" } else { "self" };
+            run.op(&format!("up.upgrade {kind} {hk} {}", owner0.tok()), "upgrade-by-former-holder-after-zero");
+            run.op(&format!("up.owner {kind}"), "q");
+            run.op(&format!("up.flag {kind}"), "q");
+        }
+    }
     // (also with ONE address holding both roles at construction: ownership then moves, the collector role must not follow)
     for (same, (hname, hops)) in [false, true].into_iter().flat_map(|b| hists.iter().map(move |h| (b, h))) {
         let hname = &if same { format!("{hname}-one-address-both-roles") } else { hname.to_string() };
